@@ -97,6 +97,10 @@ class Device(nfc.clf.device.Device):
 
         log.debug("rcvd SENS_RES %s", hexlify(sens_res).decode())
 
+        if len(sens_res) < 2:
+            log.debug("SENS_RES too short")
+            return None
+
         if sens_res[0] & 0x1F == 0:
             log.debug("type 1 tag target found")
             target = nfc.clf.RemoteTarget(target.brty, _addr=addr)
@@ -389,6 +393,15 @@ class Device(nfc.clf.device.Device):
                         return target
 
     def listen_dep(self, target, timeout):
+        try:
+            return self._listen_dep(target, timeout)
+        except (nfc.clf.CommunicationError, IndexError) as error:
+            # the initiator went away or sent a malformed frame while
+            # the activation sequence was in progress
+            log.debug("listen_dep activation failed: %r", error)
+            return None
+
+    def _listen_dep(self, target, timeout):
         self._create_socket()
 
         log.debug("listen_dep for %.3f seconds on %s:%d", timeout, *self.addr)
